@@ -459,6 +459,12 @@ func escape(c string) string {
 	}
 }
 
+// commentSafe makes Go code printable inside the /* ... */ comment that
+// documents a rule: the code must not end that comment itself.
+func commentSafe(code string) string {
+	return strings.ReplaceAll(code, "*/", "* /")
+}
+
 func (t *Tree) countRules(n *node, ruleReached []bool) {
 	switch n.GetType() {
 	case TypeRule:
@@ -946,11 +952,11 @@ func (t *Tree) Compile(file string, args []string, out io.Writer) (err error) {
 			upper := element
 			_print("[%v-%v]", escape(lower.String()), escape(upper.String()))
 		case TypePredicate:
-			_print("&{%v}", n)
+			_print("&{%v}", commentSafe(n.String()))
 		case TypeStateChange:
-			_print("!{%v}", n)
+			_print("!{%v}", commentSafe(n.String()))
 		case TypeAction:
-			_print("{%v}", n)
+			_print("{%v}", commentSafe(n.String()))
 		case TypeCommit:
 			_print("commit")
 		case TypeAlternate:
